@@ -69,6 +69,12 @@ Example trotter_symmetric_nonvacuous :   (* the additive group of integers: U_a(
   circ Z Z Z Z.add 0%Z U (trotter_seq [2; 3; 5]%Z) 7%Z = 140%Z.
 Proof. split; [intros; cbn; ring|reflexivity]. Qed.
 
+(* ---- adiabatic interpolation den * ((1 - s) H0 + s H1), s = num/den: the end points ---- *)
+Theorem adiabatic_endpoints : forall a b d H0 H1, wfm a b H0 -> wfm a b H1 ->
+  ad_ham 0 d H0 H1 = mscale ZK (d, 0%Z) H0 /\ ad_ham d d H0 H1 = mscale ZK (d, 0%Z) H1.
+Proof. exact ad_ham_endpoints. Qed.
+Print Assumptions adiabatic_endpoints.
+
 (* ---- nsteps = int(round((T - t0)/dt)) in binary64 (Coq primitive floats, bit exact) ----
    What is proved: BOUNDED and exhaustive over the grid below (96 000 float triples): times written with
    k = 0..3 decimals, t0 = a 10^-k, dt = c 10^-k, T = (a + m c) 10^-k with 0 <= a < 20, 1 <= c <= 30,
@@ -166,6 +172,24 @@ Proof.
   exact (rk4_timedep R o0 o1 oa om oo oi w2 w3 w5 w11 w13 w19 Rth i2 i3 H0 c0 c1 c2 c3 dt psi).
 Qed.
 Print Assumptions rk4_timedep_order.
+
+(* RK45 with a time-dependent Hamiltonian: the full analogue of rk4_timedep_order is not proved (certificate too
+   large).  Proved part: the contribution that is LINEAR in the Hamiltonian, psi - i dt sum_i b_i H(t + c_i dt) psi,
+   integrates every polynomial time dependence of degree <= 4 exactly (quadrature order 5): with the weights b
+   (last row of Model.rk45_tableau) and the stage times c = 0 :: Model.rk45_nodes (the times the real solver
+   queries, checked by the spy correspondence)  sum_i b_i c_i^k = 1/(k+1) for k = 0..4; and it fails for k = 5. *)
+Definition q_of (nd : Z * Z) : Q := Qmake (fst nd) (Z.to_pos (snd nd)).
+Definition rk45_moment (k : nat) : Q :=
+  fold_right Qplus 0%Q (map (fun bc : (Z * Z) * (Z * Z) => (q_of (fst bc) * Qpower (q_of (snd bc)) (Z.of_nat k))%Q)
+                            (combine (nth 5 rk45_tableau []) ((0, 1)%Z :: rk45_nodes))).
+Theorem rk45_quadrature_order :
+  (forall k, (k < 5)%nat -> Qeq (rk45_moment k) (1 # Pos.of_nat (S k))) /\ ~ Qeq (rk45_moment 5) (1 # 6).
+Proof.
+  split.
+  - intros k Hk. do 5 (destruct k as [|k]; [vm_compute; reflexivity|]). exfalso. apply (Nat.nlt_0_r k). do 5 apply Nat.succ_lt_mono in Hk. exact Hk.
+  - vm_compute. discriminate.
+Qed.
+Print Assumptions rk45_quadrature_order.
 
 (* ---- repeated executions of one AdiabaticEvolution object: the schedule arguments t / total_time of
         every run are those of a fresh object with that run's final time ---- *)
